@@ -100,7 +100,9 @@ CLAIMS = {
          "up to 2^64-1-n.  END TO END (C06_machine_refines_spec): every history over the C case language (several hasher structs, "
          "update, finalize, finalize_seek, reset, memcpy clones, forced memcmp results) that the specification-only machine "
          "(Model/CSpecMachine.v) accepts is reproduced exactly by the C model without panic on every PlatformOK platform; "
-         "C06_machine_equals_rust: on new/update/finalize/reset histories the C model and the Rust model give the same bytes.",
+         "C06_machine_equals_rust: on new/update/finalize/reset histories the C model and the Rust model give the same bytes; the 18 "
+         "loop-free functions of c/blake3.c (initialisers, reset, chunk-state and output helpers, finalize, update) are TRANSLATED "
+         "statement by statement (gen/GenCHasherSmall.v) and proved equal to the model.",
          "The kernels behind the dispatcher are the platform record (PlatformOK, tied by C05 and by the five feature masks run "
          "here); blake3_hasher_init_derive_key (NUL-terminated string) is modelled as strlen + the raw initialiser; the TBB path is C08.",
          "Coq proof of the C hasher model (full refinement) + differential run of the real C library in 2 builds x 5 feature masks"),
